@@ -8,6 +8,7 @@ mod c15;
 mod c16;
 mod c17;
 mod c19;
+mod c20;
 mod clock;
 mod disk;
 mod engine;
@@ -137,6 +138,14 @@ fn plan(prop: &str, tier: &str, seed: u64) -> Plan {
             rule: "one evaluation = one object of a builder-made (refgen) volume read through the library and compared with the builder's ground truth, or one API call of a seeded mutating session on such a volume checked by the model, the independent fsck and the raw-diff audit (bytes that differ before/after the call vs ownership decoded before the call); distinct = distinct volume images / abstract states".into(),
             exhaustive: false,
             assumptions: vec!["refgen (independent builder) and refdec (independent decoder) are trusted; refgen's output is required to be clean under refdec in every run (harness self-check)".into(), "the volume generator is input generation; the simulator contributes mutation sessions, the raw-diff oracle and device faults".into()],
+            extra: serde_json::json!({}),
+        },
+        "C20" => Plan {
+            batches: c20::batches(tier, seed),
+            level: "exploration",
+            rule: "one evaluation = one API call of a short seeded history on a sparse multi-GiB/TiB FAT32 SimDisk whose FS-info hint sits at / before / past the last cluster; every device call must stay inside the declared volume, contents and extents are read back at offsets computed independently in 64-bit arithmetic by the decoder, fsck / free count / FAT copies checked sparse-aware after every call; distinct = distinct abstract states".into(),
+            exhaustive: false,
+            assumptions: vec!["volumes are made by the library's own format_volume on a sparse device (zero-write elision); refdec walks only resident FAT pages".into()],
             extra: serde_json::json!({}),
         },
         "C09" => Plan {
